@@ -216,7 +216,10 @@ def execute(plan, ctx):
         ref = refmodels.ParityRef(plan["moment"], y, g, ratio=plan["ratio"], bound=plan["bound"])
         repo_ids = {index_key(i) for i in lam_df.index}
         if repo_ids != set(ref.ids):
-            if {(i[0], i[2]) for i in repo_ids} != {(i[0], i[2]) for i in ref.ids}:
+            if {(i[0], i[2]) for i in repo_ids} != {(i[0], i[2]) for i in ref.ids} or \
+                {i[1] for i in repo_ids} == {i[1] for i in ref.ids}:
+            # (same event names, so this is no naming difference: constraints exist for (event, group) pairs that
+            # do not occur in the fitted data, or are missing for pairs that do)
                 ctx.fail("C09.constraint_groups", f"multipliers/gammas_ are indexed by {sorted(repo_ids)} but the fitted data has the "
                          f"(event, group) pairs {sorted(ref.ids)}")
                 return
